@@ -502,7 +502,15 @@ fn matrix_call(x: usize, t: usize, v: usize) -> String {
 /// programs whose outcome hangs on process-wide or thread-wide state if anything does: empty sums and
 /// products (the helper is chosen among lazily built types), structs built at run time and tested by
 /// type (their types are recomputed per value), defaults of union types
-const STATEFUL: [&str; 25] = [
+const STATEFUL: [&str; 32] = [
+    // fillers that are functions returning cells (or compounds holding cells), called and written to
+    "it := [() -> mut int { return mut 0; }]~; it(); f := it().1; c := f(); c += 1; *c",
+    "it := [() -> mut int { return mut 0; }]~; it(); f := it().1; g := it().1; c := f(); c += 1; d := g(); (*c, *d)",
+    "it := [1]~ ? () -> mut int; f := it().1; c := f(); c += 3; *c",
+    "it := [() -> (mut int, int) { return (mut 1, 2); }]~; it(); f := it().1; t := f(); c := t.0; c += 5; (*c, *f().0)",
+    "it := [() -> [mut string] { return [mut \"a\"]; }]~; it(); f := it().1; a := f(); std.len(a)",
+    "it := [() -> struct{c: mut float} { return struct{c := mut 0.5}; }]~; it(); f := it().1; s := f(); s.c += 1.0; (*s.c, *f().c)",
+    "it := [(x: int) -> mut [int] { return mut [x]; }]~ @ (f: (int) -> mut [int]) -> (int) -> mut [int] { return f; }; it(); f := it().1; c := f(1); c += [2]; *c",
     // wide struct types tested one after the other (what a test answers is not remembered by address)
     "kind := (s: any) -> int { return match s { v: struct{x: int, y: int, w: int, h: int} => 1, => 0, }; }; (kind(struct{x := 1, y := 2, w := 3, h := 4}), kind(struct{x := \"a\", y := 2, w := 3, h := 4}), kind(struct{x := 1, y := 2, w := 3, h := 4}), kind(struct{x := 1.5, y := 2, w := 3, h := 4}), kind(struct{x := 1, y := 2, w := 3}))",
     "r := mut [int] []; for v in [struct{a := 1, b := 2, c := 3, d := 4, e := 5}, struct{a := \"s\", b := 2, c := 3, d := 4, e := 5}, struct{a := 1, b := 2, c := 3, d := 4, e := 5}, struct{a := 1, b := 2, c := 3, d := 4}]~ { r += [if q: struct{a: int, b: int, c: int, d: int, e: int} = v { 1 } else { 0 }]; }; *r",
